@@ -559,5 +559,45 @@ func main() {
 			}
 			t.Outcome("as-fresh")
 		})
+
+		// The streaming reader's decoder on its second, third frame: a Reader with the header
+		// check off that has read a whole message (to its end, or discarded) decodes the next
+		// header - any header, legal per RFC or not - exactly like the low-level decoder.
+		r.Part("E7-reader-decodes-alike-after-a-finished-message", func(t *explore.T) {
+			for fin := 0; fin < 2; fin++ {
+				for rsv := byte(0); rsv < 8; rsv++ {
+					for op := byte(0); op < 16; op++ {
+						for _, masked := range []bool{false, true} {
+							for _, how := range []string{"read-to-EOF", "Discard"} {
+								for _, st := range append([]ws.State{0}, readerStates...) {
+									h := refmodel.Hdr{Fin: fin == 1, Rsv: rsv, Op: op, Masked: masked, Mask: masks[1], Len: 3}
+									how, st := how, st
+									t.Do(func() string { return fmt.Sprintf("state %08b: Text(x) %s, then hdr %s", st, how, h) }, func() *explore.Fail {
+										first := append(refmodel.HdrEncode(refmodel.Hdr{Fin: true, Op: 1, Len: 1}), 'x')
+										enc := refmodel.HdrEncode(h)
+										src := env.NewSrc(append(append(append([]byte{}, first...), enc...), sentinel...))
+										rd := &wsutil.Reader{Source: src, State: st, SkipHeaderCheck: true}
+										if _, err := rd.NextFrame(); err != nil {
+											return explore.Failf("harness-first-frame", "%v", err)
+										}
+										if how == "Discard" {
+											rd.Discard()
+										} else {
+											io.ReadAll(rd)
+										}
+										g, err := rd.NextFrame()
+										if err != nil || !sameHdr(g, h) || src.Off != len(first)+len(enc) {
+											return explore.Failf("NextFrame-after-a-finished-message-differs-from-ReadHeader", "err=%v got %+v consumed %d; on the wire: %s", err, g, src.Off-len(first), h)
+										}
+										return nil
+									})
+								}
+							}
+						}
+					}
+				}
+			}
+			t.Outcome("as-ReadHeader")
+		})
 	})
 }
